@@ -115,7 +115,12 @@ def r_iterators(chk, P, tier):
             pays = [result_variant(p_.ret)[1][0] for p_ in Sym(P, fn).paths() if p_.end[0] == "return" and result_variant(p_.ret)[0] == "Some"]
             if not pays:
                 raise AnchorLost(fn + ": no Some return")
-            stepped = [pp(t)[:80] for t in pays if any(x[0] == "call" for x in walk_terms(t))]
+            def old_value(t):
+                """the stored field itself, or mem::replace(&mut self.value, new) - which returns the value held before"""
+                if is_call(t, suffix="mem::replace") and not any(x[0] == "call" for x in walk_terms(t[2][0])):
+                    return True
+                return not any(x[0] == "call" for x in walk_terms(t))
+            stepped = [pp(t)[:80] for t in pays if not old_value(t)]
             chk.expect(not stepped, it + "::" + m.split("::")[-1] + " yields the current value", "%s yields %s (expected the value stored before the step)" % (fn, stepped), loc=P.loc(fn))
 
 
